@@ -186,6 +186,27 @@ func TestPropOverrides(t *testing.T) {
 				ginits = append(ginits, g.Init) // arithmetic on the supplied value: keep it small
 			}
 		}
+		// overrides that take part in function-body arithmetic also get small values: naga folds
+		// `ov + v` (v a let of a constant) in float64 and converts back without wrap-around, which is
+		// finding C14-3's root cause and would otherwise surface as a value mismatch at INT_MIN / UINT_MAX
+		for _, fn := range gc.Mod.Funcs() {
+			wgen.WalkStmts(fn.Body, nil, func(root wgen.Expr) {
+				wgen.WalkExpr(root, func(e wgen.Expr) bool {
+					switch x := e.(type) {
+					case *wgen.Binary:
+						switch x.Op {
+						case "+", "-", "*", "/", "%", "<<", ">>":
+							ginits = append(ginits, x)
+						}
+					case *wgen.Unary:
+						if x.Op == "-" {
+							ginits = append(ginits, x)
+						}
+					}
+					return true
+				})
+			})
+		}
 		deps := dependents(gc.Overrides, ginits...)
 		consts := map[string]float64{}
 		bound := map[*wgen.Var]wref.Value{}
